@@ -7,6 +7,7 @@ CONSTANTS
   Messages <- McMessages
   Servers <- McServers
   Forms <- McForms
+  Vias <- McVias
   MaxServes = 1
   Deviation = "client-accepts-nonzero"
 INVARIANTS ClientNeverConfuses
